@@ -54,4 +54,9 @@ for _h in HARNESSES[4:]:  # one-operand operations
 # pstm_sub_s precondition |a| >= |b| needs used(b) <= used(a)
 HARNESSES[2]["cases"] = [c for c in HARNESSES[2]["cases"] if c["defs"]["VF_UB"] <= c["defs"]["VF_UA"]]
 HARNESSES += [MULH, SQRH]
-PROPERTY = dict(level="model_checking", explanation="", bounds="", outside="", assumptions=[])
+PROPERTY = dict(level='model_checking',
+    claim='pstm add/sub/sub_s/cmp/mul_2/div_2/lshd/rshd/copy equal an independent ripple-carry reference for all 64-bit digit values, all signs, output aliasing; comba multiplication and squaring over the asm2c-translated x86-64 kernels equal schoolbook multiplication with the 64x64 product as an uninterpreted symmetric function.',
+    bounds='operands <= 3 digits (mul/sqr quick: <= 2x2 / 2; thorough 3x3 / 4), capacity 8 digits',
+    outside='division, modular reduction, Montgomery reduction, exptmod, invmod, larger operand sizes, the unrolled 16/32-digit variants, non-x86-64 kernels',
+    explanation='pstm add/sub/sub_s/cmp/mul_2/div_2/lshd/rshd/copy equal an independent ripple-carry reference for all 64-bit digit values, all signs, output aliasing; comba multiplication and squaring over the asm2c-translated x86-64 kernels equal schoolbook multiplication with the 64x64 product as an uninterpreted symmetric function.',
+    assumptions=[])
